@@ -79,23 +79,29 @@ def twoDigits (s : Str) (lo hi : Nat) : Bool :=
   | [a, c] => isDigit a && isDigit c && lo ≤ digitVal a * 10 + digitVal c && digitVal a * 10 + digitVal c ≤ hi
   | _ => false
 
+/-- optional fraction `.f+`; returns what follows it (`none`: a dot without digits) -/
+def dtFracRest (r : Str) : Option Str :=
+  match r with
+  | '.' :: f =>
+    let ds := f.takeWhile isDigit
+    if ds = [] then none else some (f.drop ds.length)
+  | _ => some r
+
+/-- `Z`, `±hh:mm` or `±hhmm` with hh ≤ 23, mm ≤ 59 -/
+def dtZoneOK (r : Option Str) : Bool :=
+  match r with
+  | none => false
+  | some ['Z'] => true
+  | some [sg, a, c, ':', d, e] => (sg = '+' || sg = '-') && twoDigits [a, c] 0 23 && twoDigits [d, e] 0 59
+  | some [sg, a, c, d, e] => (sg = '+' || sg = '-') && twoDigits [a, c] 0 23 && twoDigits [d, e] 0 59
+  | _ => false
+
 /-- `YYYY-MM-DDThh:mm:ss[.f+](Z|±hh:mm|±hhmm)` -/
 def isDateTime (s : Str) : Bool :=
   match s with
   | y1 :: y2 :: y3 :: y4 :: '-' :: m1 :: m2 :: '-' :: d1 :: d2 :: 'T' :: h1 :: h2 :: ':' :: i1 :: i2 :: ':' :: s1 :: s2 :: r =>
     allDigits [y1, y2, y3, y4] && twoDigits [m1, m2] 1 12 && twoDigits [d1, d2] 1 31 && twoDigits [h1, h2] 0 23 &&
-    twoDigits [i1, i2] 0 59 && twoDigits [s1, s2] 0 60 &&
-    (let r : Option Str := match r with
-        | '.' :: f =>
-          let ds := f.takeWhile isDigit
-          if ds = [] then none else some (f.drop ds.length)
-        | _ => some r
-     match r with
-     | none => false
-     | some ['Z'] => true
-     | some [sg, a, c, ':', d, e] => (sg = '+' || sg = '-') && twoDigits [a, c] 0 23 && twoDigits [d, e] 0 59
-     | some [sg, a, c, d, e] => (sg = '+' || sg = '-') && twoDigits [a, c] 0 23 && twoDigits [d, e] 0 59
-     | _ => false)
+    twoDigits [i1, i2] 0 59 && twoDigits [s1, s2] 0 60 && dtZoneOK (dtFracRest r)
   | _ => false
 
 inductive Lex where
